@@ -505,6 +505,8 @@ macro_rules! curve_impl {
                 // TODO: we may decide we should clear memory
                 // For now, none of the other functions do that, either.
                 // TODO: is it worth it to convert buckets to affine? (with one inversion)
+                #[cfg(feature = "verif")]
+                ::verif_probe::probe(::verif_probe::PIPPINGER);
                 let mut res = Self::Projective::zero();
                 let num_components = if points.len() < scalars.len() {
                     points.len()
@@ -740,6 +742,8 @@ macro_rules! curve_impl {
             }
 
             fn double(&mut self) {
+                #[cfg(feature = "verif")]
+                ::verif_probe::probe(::verif_probe::DOUBLE);
                 if self.is_zero() {
                     return;
                 }
@@ -800,6 +804,8 @@ macro_rules! curve_impl {
             }
 
             fn add_assign(&mut self, other: &Self) {
+                #[cfg(feature = "verif")]
+                ::verif_probe::probe(::verif_probe::ADD_ASSIGN);
                 if self.is_zero() {
                     *self = *other;
                     return;
@@ -890,6 +896,8 @@ macro_rules! curve_impl {
             }
 
             fn add_assign_mixed(&mut self, other: &Self::Affine) {
+                #[cfg(feature = "verif")]
+                ::verif_probe::probe(::verif_probe::ADD_ASSIGN_MIXED);
                 if other.is_zero() {
                     return;
                 }
@@ -978,6 +986,8 @@ macro_rules! curve_impl {
             }
 
             fn mul_assign<S: Into<<Self::Scalar as PrimeField>::Repr>>(&mut self, other: S) {
+                #[cfg(feature = "verif")]
+                ::verif_probe::probe(::verif_probe::MUL_ASSIGN);
                 let mut res = Self::zero();
 
                 let mut found_one = false;
